@@ -22,9 +22,9 @@ ASSUMPTIONS = [
     'a client answers is_ready monotonically per task and get_result blocks until the task is done (ClientBase contract)',
     'at most max_queries free is_ready answers per run, later ones are True',
     'values as in C01 (discrepancies finite or +inf, no NaN); region of known finding C01/inf-tie-placeholder excluded',
+    'SMC: every non-final population has a non-zero proposal variance (identical particles make scipy raise in either run)',
 ]
-OUTSIDE = ['real process pools (timing, pickling)', 'dask / ipyparallel clients', 'more batches than the bound (Cut)',
-           'quantile-driven SMC under a symbolic schedule']
+OUTSIDE = ['real process pools (timing, pickling)', 'dask / ipyparallel clients', 'more batches than the bound (Cut)']
 
 
 class use_client:
@@ -141,13 +141,16 @@ MANIFEST = {
 
 # ---------------------------------------------------------------- multi-round SMC under a symbolic schedule
 
-def h_smc_sched(ctx, bs, n, rounds, K, max_queries=3):
-    """SMC (thresholds) sequentially on the native client vs on SchedClient with max_parallel in {2,3}."""
+def h_smc_sched(ctx, bs, n, rounds, K, max_queries=3, mode='thresholds'):
+    """SMC (thresholds or quantiles) sequentially on the native client vs on SchedClient with max_parallel in {2,3}."""
     import elfi.methods.utils as mu
     from symx.npfacade import patched
     from harness.C07 import smc_env
     w = World(ctx, bs, max_batches=K, d_specials=(), bounded_prior=False)
-    ths = [ctx.real('thr%d' % r) for r in range(rounds)]
+    if mode == 'thresholds':
+        kw = dict(thresholds=[ctx.real('thr%d' % r) for r in range(rounds)])
+    else:
+        kw = dict(quantiles=[ctx.real('q%d' % r, 0, 1, lo_open=True) for r in range(rounds)])
     trials = [0]
 
     def bounded(smc):
@@ -162,7 +165,10 @@ def h_smc_sched(ctx, bs, n, rounds, K, max_queries=3):
         with use_client(native.Client()):
             a = elfi.SMC(w.model['d'], batch_size=bs, seed=w.seed, max_parallel_batches=1)
             bounded(a)
-            ra = a.sample(n, thresholds=list(ths), bar=False)
+            ra = a.sample(n, bar=False, **{k: list(v) for k, v in kw.items()})
+        # non-degenerate populations (identical particles give a singular proposal covariance: scipy raises)
+        for pop in ra.populations[:-1]:
+            ctx.assume(np.asarray(pop.cov, dtype=object).reshape(-1)[0] > 0)
         mp = 2 + ctx.choice('max_parallel_minus_2', 2)
         client = SchedClient(ctx, num_cores=mp, max_queries=max_queries)
         log = {'updates': [], 'max_pending': 0}
@@ -170,7 +176,7 @@ def h_smc_sched(ctx, bs, n, rounds, K, max_queries=3):
             b = elfi.SMC(w.model['d'], batch_size=bs, seed=w.seed, max_parallel_batches=mp)
             bounded(b)
             monitor(b, client, log)
-            rb = b.sample(n, thresholds=list(ths), bar=False)
+            rb = b.sample(n, bar=False, **{k: list(v) for k, v in kw.items()})
     ctx.note('max_parallel=%d queries=%d updates=%s submitted=%d' % (mp, client.queries, log['updates'], len(client.submitted)))
     ctx.claim('same_number_of_populations', len(ra.populations) == len(rb.populations) == rounds)
     for r, (pa, pb) in enumerate(zip(ra.populations, rb.populations)):
@@ -191,4 +197,10 @@ HARNESSES += [
       bounds='SMC thresholds, 2 rounds, batch_size 2, n=2, <=2 consumed batches, max_parallel in {2,3}, <=3 free is_ready answers'),
     H('smc_thr_bs1_n2_r2', h_smc_sched, dict(bs=1, n=2, rounds=2, K=4, max_queries=4), path_timeout=300, tiers=('thorough',),
       bounds='SMC thresholds, 2 rounds, batch_size 1, n=2, <=4 consumed batches, max_parallel in {2,3}, <=4 free answers'),
+    H('smc_q_bs2_n2_r2', h_smc_sched, dict(bs=2, n=2, rounds=2, K=2, mode='quantiles'), path_timeout=300,
+      bounds='SMC quantiles (threshold of round 2 = weighted quantile of population 1), 2 rounds, batch_size 2, n=2, <=2 consumed '
+             'batches, max_parallel in {2,3}, <=3 free is_ready answers'),
+    H('smc_q_bs1_n2_r2', h_smc_sched, dict(bs=1, n=2, rounds=2, K=4, max_queries=4, mode='quantiles'), path_timeout=300,
+      tiers=('thorough',),
+      bounds='SMC quantiles, 2 rounds, batch_size 1, n=2, <=4 consumed batches, max_parallel in {2,3}, <=4 free answers'),
 ]
